@@ -50,7 +50,7 @@ Proof. intros H. unfold passes, filter_pass, nu_ev. rewrite H. reflexivity. Qed.
 
 Lemma c07_seamless_num_proof : C07_seamless_num.
 Proof.
-  intros U c w ps merged_end canon forked Hwfb Hlok [[l [Hl Hhub]] Hrest] Hchain Hincl merged Htip Hagr
+  intros U c w ps merged_end canon forked Hwfb Hlok [[l [Hl Hhub]] Hrest] Hchain Hincl merged Htip
          Hmode Hfilter Hstop Hbundle Hbound res start Hstartblk.
   assert (Hscope : disc_scope2_b U = true) by (unfold disc_scope2_b; rewrite Hwfb, Hlok; reflexivity).
   pose proof (bridge_id U Hwfb) as Hid. pose proof (bridge_uniq U Hwfb) as Huniq. pose proof (bridge_up U Hwfb) as Hup.
@@ -79,7 +79,7 @@ Proof.
     - unfold merged in Hzin. apply filter_In in Hzin as [_ Hz]. apply N.ltb_lt in Hz. lia. }
   assert (Hstartle : exists b, In b canon /\ bnum b <= start) by (destruct Hstartblk as (b0 & H1 & H2); exists b0; split; [exact H1 | lia]).
   destruct (stream_num U c canon start Hid Huniq Hup Hdecl Hfilter Hstop HcU Hcl Hstartle merged HmU
-              w ps merged_end forked Hmode eq_refl HW Htip Hagr (lnk_of_chain_ok D HDok) HbotD) as (st & Hst & Hfin).
+              w ps merged_end forked Hmode eq_refl HW Htip (lnk_of_chain_ok D HDok) HbotD) as (st & Hst & Hfin).
   fold res in Hst, Hfin.
   assert (Hnu : Forall (fun e => nu_ev e = true) (fst res)).
   { destruct (c13_stream_output_proof c w ps merged_end merged forked (fst res) (snd res)) as [Hp _].
